@@ -131,17 +131,25 @@ def _config_arg(fn):
     if not (i_tmp < i_tadd < i_parse < i_set < i_add):
         raise Unrecognised("parse_known_args: order of the statements of the config-path block")
     stmt = blk[i_add]
+    refreshed = False
     if isinstance(stmt, ast.Expr):
         every = True
-    elif isinstance(stmt, ast.If) and not stmt.orelse and len(clean(stmt.body)) == 1 \
-            and unparse(stmt.test) in ("f'--{config_path_name}' not in self._option_string_actions",
-                                       "not self._config_path_arg_added"):
-        if unparse(stmt.test) == "not self._config_path_arg_added":
-            raise Unrecognised("parse_known_args: flag-based guard is not modelled")
+    elif isinstance(stmt, ast.If) and len(clean(stmt.body)) == 1 \
+            and unparse(stmt.test) == "f'--{config_path_name}' not in self._option_string_actions":
         every = False
+        # does an existing argument get THIS call's value as its default (else-branch), or keep the adding call's?
+        els = [unparse(x) for x in clean(stmt.orelse)]
+        if els == []:
+            refreshed = False
+        elif els == ["self._option_string_actions[f'--{config_path_name}'].default = config_path"]:
+            refreshed = True
+        else:
+            raise Unrecognised(f"parse_known_args: else-branch of the help-only add_argument guard: {els[:2]}")
     else:
         raise Unrecognised("parse_known_args: unknown guard around the help-only add_argument")
-    return every
+    if i_add != len(blk) - 1:
+        raise Unrecognised("parse_known_args: statements after the help-only add_argument")
+    return every, refreshed
 
 
 def _print_help(fn):
@@ -251,7 +259,7 @@ def emit(repo: str) -> str:
     pt = parse(repo, "simple_parsing/parsing.py")
     _constructor(find_def(pt, "__init__", cls="ArgumentParser"))
     reasserts, cached, after_work = _preprocessing(find_def(pt, "_preprocessing", cls="ArgumentParser"))
-    every = _config_arg(find_def(pt, "parse_known_args", cls="ArgumentParser"))
+    every, refreshed = _config_arg(find_def(pt, "parse_known_args", cls="ArgumentParser"))
     _print_help(find_def(pt, "print_help", cls="ArgumentParser"))
     persist = _set_defaults(find_def(pt, "set_defaults", cls="ArgumentParser"))
     fw = parse(repo, "simple_parsing/wrappers/field_wrapper.py")
@@ -273,11 +281,13 @@ def emit(repo: str) -> str:
         f"Definition defaults_persist_gen : bool := {_b(persist)}.\n"
         "(* is `_preprocessing_done = True` the last statement of _preprocessing (false: assigned before the work) *)\n"
         f"Definition done_after_work_gen : bool := {_b(after_work)}.\n"
+        "(* when the help-only --config_path argument exists already, is its default set to this call's value *)\n"
+        f"Definition cfgarg_refreshed_gen : bool := {_b(refreshed)}.\n"
         "(* does parse_enum key the module-level registry _parsing_fns by the Enum class object (false: by its qualified name) *)\n"
         f"Definition reg_by_class_gen : bool := {_b(by_class)}.\n"
         "Definition facts_gen : facts :=\n"
         "  mkfacts reasserts_gen cfgarg_every_parse_gen setup_cached_gen tuple_counter_persists_gen defaults_persist_gen\n"
-        "          done_after_work_gen reg_by_class_gen.\n"
+        "          done_after_work_gen cfgarg_refreshed_gen reg_by_class_gen.\n"
         "Definition step_gen := step facts_gen.\n"
         "Definition fresh_gen := fresh facts_gen.\n"
         "Definition benign_gen := benign facts_gen.\n"
